@@ -41,8 +41,32 @@ def session(rng, cycles, bg):
             if c % 5 == 0:
                 steps.append({"op": "get", "k": rng.randrange(8)})
                 steps.append({"op": "obs"})
-        steps += [{"op": "obs"}, {"op": "close"}, {"op": "obs"}]
+        if bg and s % 2 == 0:
+            # Close while a compaction is between its merge and its reflect: what the reflect installs must be released as well
+            steps += [{"op": "obs"}, {"op": "window", "v": "close-while-compacting"}, {"op": "obs"}]
+        else:
+            steps += [{"op": "obs"}, {"op": "close"}, {"op": "obs"}]
     return steps
+
+
+def res_lines(evs):
+    """projection of a recorded session onto the lines ResTrace.tla consumes (hook events that drive Resources.tla + observations)"""
+    lines = []
+    last_merged = 0
+    for e in evs:
+        t = e["t"]
+        if t in ("obs", "bgfail"):
+            lines.append(e)
+        elif t == "open":
+            lines.append({"t": t, "bg": bool(e.get("bg")), "tables": len(e["tables"]) if isinstance(e.get("tables"), list) else int(e.get("tables") or 0)})
+        elif t == "compact.merged":
+            last_merged = len(e.get("inputs") or [])
+            lines.append({"t": t, "ninputs": last_merged})
+        elif t == "reflect.done":   # one compaction at a time: the reflect belongs to the last merge
+            lines.append({"t": t, "ninputs": last_merged})
+        elif t in ("install", "close.begin", "close.flusher", "close.done"):
+            lines.append({"t": t})
+    return lines
 
 
 def run(tier):
@@ -51,8 +75,8 @@ def run(tier):
     thorough = tier == "thorough"
     binary = common.build_harness()
     judge.model_check("Resources.tla", "MC_Resources.cfg", o, "exhaustive: open / flush / compact / close")
-    nsess = 12 if thorough else 4
-    jobs = [("s%d" % i, session(rng, rng.choice([200, 500]) if thorough else rng.choice([50, 120]), bg=(i % 2 == 1))) for i in range(nsess)]
+    nsess = 48 if thorough else 4
+    jobs = [("s%d" % i, session(rng, rng.choice([200, 500, 1200]) if thorough else rng.choice([50, 120]), bg=(i % 2 == 1))) for i in range(nsess)]
 
     def do(job):
         name, steps = job
@@ -62,11 +86,13 @@ def run(tier):
     traces = common.parallel(do, jobs, nthreads=4)
     lines = []
     ncycles = 0
+    nclosewin = 0
     for (name, steps), tpath in zip(jobs, traces):
         evs = common.read_ndjson(tpath)
+        nclosewin += sum(1 for e in evs if e["t"] == "note" and e.get("name") == "compaction reflected during Close: true")
         ncycles += sum(1 for e in evs if e["t"] in ("install", "reflect.done"))
         lines.append({"t": "reset", "case": name})
-        lines += [e for e in evs if e["t"] in ("obs", "bgfail")]
+        lines += res_lines(evs)
     # library level
     libcases = []
     opsets = [["scan"], ["scanabandon"], ["range", "rangeabandon"], ["scanabandon", "scanabandon", "get", "range"], ["get"], []]
@@ -97,11 +123,14 @@ def run(tier):
     o.evaluations = nobs
     o.nontrivial = nobs
     o.extra["cycles"] = ncycles
+    o.extra["closes_overlapping_a_compaction_reflect"] = nclosewin
     o.rule = ("evaluations = observations of (live tables, descriptors, mappings, module goroutines) at quiescent points of real sessions with many "
               "flush / compaction / open / close cycles, and of library object life cycles (complete and abandoned scans); all non-trivial")
     o.sample({"session": jobs[0][1][:8], "library": libcases[:3]})
     o.assumptions = ["bound: descriptors + mappings under the directory <= live tables + 4", "GOGC=off so that finalizers cannot mask a leak",
                      "goroutines are counted by stack frames inside the module"]
+    if nclosewin == 0:
+        o.problem("vacuous run: no Close overlapped a compaction between merge and reflect")
     if ncycles < 50:
         o.problem("vacuous run: only %d flush/compaction cycles" % ncycles)
     return o.finish()
